@@ -29,6 +29,7 @@ type Item struct {
 	Prog      string      `json:"prog"`
 	Selectors []string    `json:"selectors,omitempty"`
 	Inputs    []ProgInput `json:"inputs"`
+	Fuzzing   bool        `json:"fuzzing,omitempty"` // the library's own fuzzing flag (bounds loops at 10000 iterations)
 }
 
 type ItemResult struct {
@@ -88,7 +89,7 @@ func runItemChunked(it *Item, chunk int) (r ItemResult) {
 				files[i] = lang.InputFile{Name: in.Name, Reader: bytes.NewReader(in.Data)}
 			}
 		}
-		ev, err := lang.EvalProgram(it.Prog, files, it.Selectors, &out, false)
+		ev, err := lang.EvalProgram(it.Prog, files, it.Selectors, &out, it.Fuzzing)
 		r.Kind, r.Msg = classifyErr(err)
 		var se lang.SyntaxError
 		var re lang.RuntimeError
@@ -397,13 +398,26 @@ func genItem(t *Tape) Item {
 		it.Inputs = append(it.Inputs, ProgInput{Name: "in2.json", Data: QBytes(doc())})
 	}
 	k1, k2 := histKeys[t.Draw(len(histKeys))], histKeys[t.Draw(len(histKeys))]
-	switch t.Weighted(5, 5, 3, 3, 3, 2, 2, 2, 2, 2, 2, 1, 1, 4, 2, 3, 2, 4) {
+	switch t.Weighted(5, 5, 3, 3, 3, 2, 2, 2, 2, 2, 2, 1, 1, 4, 2, 3, 2, 4, 3, 3) {
 	case 13:
 		// regular expressions: literal and string forms, patterns that share
 		// prefixes and lengths (a process-level cache keyed too coarsely shows here)
 		pats := []string{"^al", "^alp", "^alpha$", "a$", "a$|u$", "eta", "eta$", "^(be|ga)", "^(be|ga|de)", "^.a", "^.e", "^...$", "^....$", "[aeiou]{2}", "[aeiou]t", "^[a-m]", "^[n-z]", "mu|nu", "mu|xi"}
 		p1, p2 := pats[t.Draw(len(pats))], pats[t.Draw(len(pats))]
 		it.Prog = fmt.Sprintf("{ for (k, v in $) { if (k ~ /%s/) { print \"m1\", k }\n if (k !~ \"%s\") { print \"n2\", k } } }", p1, p2)
+	case 18:
+		// object literals with repeated keys and values whose evaluation order shows
+		it.Prog = []string{
+			"BEGIN { n = 0\n o = {a: n++, b: n++, a: n++, c: n++, d: n++}\n print o, n }",
+			"function say(x) { print \"eval\", x\n return x }\n{ o = {k: say(1), m: say(2), k: say(3), z: say(4)}\n print o }",
+			"{ o = {\"x\": $.alpha, \"y\": c++, \"x\": c++, \"w\": c++}\n print o, c }",
+		}[t.Draw(3)]
+	case 19:
+		// loops far beyond ten thousand iterations (the fuzzing mode of an earlier, unrelated run bounds loops)
+		it.Prog = []string{
+			"BEGIN { for (i = 0; i < 10050; i++) { n++ }\n print n }",
+			"{ i = 0\n while (i < 12000) { i++ }\n print i }",
+		}[t.Draw(2)]
 	case 17:
 		// programs that use the names of built-in functions as ordinary variables,
 		// and programs that rely on those built-ins
@@ -476,6 +490,10 @@ func genItem(t *Tape) Item {
 		it.Prog = "{ print }\nENDFILE { print \"ef\" }"
 	default:
 		it.Prog = "BEGIN { x = {}\n x.b = 1\n x.a = 2\n x.self = x\n print x\n arr = []\n arr[3] = " + objLiteral(t, 3, 5) + "\n print arr\n print json(arr) }"
+	}
+	// an embedder (or the project's own fuzz targets) may run with the fuzzing flag
+	if t.Chance(1, 8) {
+		it.Fuzzing = true
 	}
 	return it
 }
